@@ -21,7 +21,7 @@ import numpy as np
 import collections, copy, itertools, warnings, yaml
 from onsager import crystal, supercell
 import tarfile, time, io, json
-import pkg_resources
+import pkgutil
 
 
 def map2string(tag, groupop, mapping):
@@ -224,9 +224,9 @@ def supercelltar(tar, superdict, filemode=0o664, directmode=0o775, timestamp=Non
     for filename, strdata in (('INCAR.relax', INCARrelax), ('INCAR.NEB', INCARNEB)) + \
             ((('KPOINTS', KPOINTS),) if kpoints else tuple()):
         addfile(filename, strdata)
-    addfile('trans.pl', str(pkg_resources.resource_string(__name__, 'trans.pl'), 'ascii'), executable=True)
-    addfile('nebmake.pl', str(pkg_resources.resource_string(__name__, 'nebmake.pl'), 'ascii'), executable=True)
-    addfile('Vasp.pm', str(pkg_resources.resource_string(__name__, 'Vasp.pm'), 'ascii'))
+    addfile('trans.pl', str(pkgutil.get_data(__package__, 'trans.pl'), 'ascii'), executable=True)
+    addfile('nebmake.pl', str(pkgutil.get_data(__package__, 'nebmake.pl'), 'ascii'), executable=True)
+    addfile('Vasp.pm', str(pkgutil.get_data(__package__, 'Vasp.pm'), 'ascii'))
     # now, go through the states:
     if 'reference' in superdict:
         addfile('POSCAR', superdict['reference'].POSCAR('Defect-free reference'))
